@@ -893,6 +893,10 @@ class ConvertInstance:
             IdMap() if template is None else template
         )
 
+        # temporaries connected to ports of instantiated entities,
+        # the assignments that define them must survive cleanup_unused
+        self._port_temporaries = IdSet()
+
     def lookup_template(self, source: out.EntityTemplate) -> ir.EntityTemplate | None:
         if source in self._entity_templates:
             return self._entity_templates[source]
@@ -1021,8 +1025,11 @@ class ConvertInstance:
         search_invalid_temporaries(ctx.code())
 
     @staticmethod
-    def cleanup_unused(ctx: ir.Context):
+    def cleanup_unused(ctx: ir.Context, keep=()):
         used_temporaries = IdSet()
+
+        for kept in keep:
+            used_temporaries.add(kept)
 
         def find_used_temp(obj, access: AccessFlags):
             if access.is_read() and isinstance(obj, Temporary):
@@ -1115,6 +1122,10 @@ class ConvertInstance:
             if isinstance(inp, out.Entity):
                 template = self.apply(inp.template())
 
+                for port_def in inp.port_definitions().values():
+                    if isinstance(port_def, Temporary):
+                        self._port_temporaries.add(port_def._root)
+
                 return ir.Entity(
                     template,
                     inp._info.name,
@@ -1152,7 +1163,9 @@ class ConvertInstance:
                 result.visit_referenced_objects(check_variables_and_temporaries)
 
                 if result.attributes.get("cleanup_unused", True):
-                    result = ConvertInstance.cleanup_unused(result)
+                    result = ConvertInstance.cleanup_unused(
+                        result, self._port_temporaries
+                    )
 
                 if result.attributes.get("zero_init_temporaries", False):
                     # only used for unit tests
@@ -1173,7 +1186,9 @@ class ConvertInstance:
                 ConvertInstance.detect_uninitialized_temporaries(result)
 
                 if result.attributes.get("cleanup_unused", True):
-                    result = ConvertInstance.cleanup_unused(result)
+                    result = ConvertInstance.cleanup_unused(
+                        result, self._port_temporaries
+                    )
                 if result.attributes.get("cleanup_bool_cast", True):
                     result = ConvertInstance.cleanup_bool_cast(result)
                 if result.attributes.get("zero_init_temporaries", False):
